@@ -67,3 +67,10 @@ for mid,d,prop,st,fired,detail in res:
     if '-v' in args or tag in ('FALSE-ALARM',):
         for x in (detail if isinstance(detail,list) else [detail]): print('      ', x)
 print(json.dumps(stats))
+if '--write-expect' in args:
+    exp = {}
+    for (mid,d,prop,patch,_e),(mid2,d2,prop2,st,fired,detail) in zip(items,res):
+        if st != 'ok': continue
+        exp[mid] = {"class": d, "property": prop, "patch": os.path.relpath(patch, here), "fires": sorted(fired)}
+    json.dump(exp, open(here+'/mutants/expect.json','w'), indent=1, sort_keys=True)
+    print("wrote mutants/expect.json with", len(exp), "entries")
